@@ -81,6 +81,13 @@ class Arg:
         self.bkind = ARCHS[aid][2] if aid else None
 
     # batch lanes (bit patterns)
+    def lane_pre(self, i):
+        """lane in the pre-state, for requires clauses (no __CPROVER_old there)"""
+        v = getattr(self, "val_pre", None)
+        if v is None:
+            return self.lane(i)
+        return v.lane(self.tid, i)
+
     def lane(self, i):
         if self.kind == "S":
             if TYPES[self.tid][3] == "f":
@@ -172,6 +179,7 @@ def bind(fn, sigjson, tinfo, native=False):
                 Val(this["type"], this["name"], tinfo, native=native))
         a.cname, a.is_this = this["name"], True
         if fn.level == "compound":
+            a.val_pre = a.val
             a.val = a.val.as_old()
         ctx.args.append(a)
     for pt, ip in zip(dem, irp):
@@ -183,6 +191,7 @@ def bind(fn, sigjson, tinfo, native=False):
             a.cname, a.is_this = ip["name"], False
             a.writable = pt.ref and not pt.const
             if fn.level == "compound":
+                a.val_pre = a.val
                 a.val = a.val.as_old()
             ctx.args.append(a)
             ctx.ir_order.append(("ptr" if ip["type"].endswith("*") else "value", ip["name"], ip["type"]))
